@@ -22,7 +22,7 @@ type In struct {
 	AE, BE uint
 	AV, BV string
 	AR, BR string
-	Via    string // "struct" | "parse" | "less"
+	Via    string // "struct" | "parse" | "less" | "parse-edit" | "cut"
 }
 
 func (in In) a() version.Version {
@@ -70,6 +70,12 @@ func checkPairWant(scen string, in In, want int) *mc.Violation {
 		pa.Epoch, pa.Version, pa.Revision = a.Epoch, a.Version, a.Revision
 		pb.Epoch, pb.Version, pb.Revision = b.Epoch, b.Version, b.Revision
 		got = gen.Sign(version.Compare(pa, pb))
+	case "cut":
+		// the strings of both values are windows onto shared buffers (one value's text a slice of the other's wherever
+		// it occurs in it): the order is a function of the text, not of where its bytes live
+		a.Version, b.Version = cutPair(a.Version, b.Version)
+		a.Revision, b.Revision = cutPair(a.Revision, b.Revision)
+		got = gen.Sign(version.Compare(a, b))
 	case "less":
 		s := version.Slice{a, b}
 		l01, l10 := s.Less(0, 1), s.Less(1, 0)
@@ -94,6 +100,21 @@ func checkPairWant(scen string, in In, want int) *mc.Violation {
 		return mc.V(scen, "sign-equals-policy-order", in, fmt.Sprint(want), fmt.Sprint(got), features(in)...)
 	}
 	return nil
+}
+
+// cutPair returns x and y with the same text but shared storage: the shorter one sliced out of the longer one where it
+// occurs there, otherwise both cut from one concatenation.
+func cutPair(x, y string) (string, string) {
+	if x != "" && y != "" {
+		if i := strings.Index(y, x); i >= 0 {
+			return y[i : i+len(x)], y
+		}
+		if i := strings.Index(x, y); i >= 0 {
+			return x, x[i : i+len(y)]
+		}
+	}
+	buf := strings.Clone(x + y)
+	return buf[:len(x)], buf[len(x):]
 }
 
 func cls(c int) string {
@@ -351,7 +372,7 @@ func Run(r *mc.Run) {
 		}
 		full = f2
 	}
-	for _, via := range []string{"struct", "parse", "less", "parse-edit"} {
+	for _, via := range []string{"struct", "parse", "less", "parse-edit", "cut"} {
 		via := via
 		r.Scenario("full-versions-"+via, map[string]interface{}{"epochs": "0 1 2 10 2^31 2^32 2^63-1 2^63 2^63+1 2^64-1", "upstream": "all |s|<=2 over 01a~+.-:", "revisions": revs, "versions": len(full)},
 			len(full), func(i int, st *mc.Stats) bool {
